@@ -690,7 +690,11 @@ def guard_strings(rng, n):
            "SELECT '" + "(" * 60 + "'", "SELECT \"" + "(" * 60 + "\"", "SELECT 1 --" + "(" * 60, "SELECT 1 --" + "(" * 60 + "\n" + "(" * 48,
            "SELECT '" + "(" * 60 + "''" + "(" * 60 + "'" + "(" * 48, "SELECT 'a" + "(" * 48, "SELECT 1 -" + "(" * 48 + "1" + ")" * 48,
            "SELECT " + "CAST(" * 47 + "1" + " AS BIGINT)" * 47, "SELECT " + "CAST(" * 48 + "1" + " AS BIGINT)" * 48,
-           "SELECT é" + "(" * 48, "SELECT '’" + "(" * 48 + "'", "(" * 47 + "\u0000" + "(", "\r--\r(" + "(" * 47]
+           "SELECT é" + "(" * 48, "SELECT '’" + "(" * 48 + "'", "(" * 47 + "\u0000" + "(", "\r--\r(" + "(" * 47,
+           # a backslash is an ordinary character in this dialect: a literal ending in one is still closed by its quote
+           # (added after seeded change seeded/C29)
+           "SELECT '\\', " + "(" * 48 + "1" + ")" * 48, "SELECT '\\', " + "(" * 47 + "1" + ")" * 47, "SELECT 'a\\' || " + "CAST(" * 48 + "1" + " AS BIGINT)" * 48,
+           "SELECT \"\\\", " + "(" * 48, "SELECT '\\''(' , " + "(" * 48, "SELECT '\\\\', " + "(" * 48]
     toks = ["(", "(", "(", ")", ")", "'", "''", '"', "`", "--", "-", "\n", " ", "a", "1", ",", "SELECT ", "é", "\\", "/*", "*/", "\r", "x'", "--\n"]
     while len(out) < n:
         k = rng.random()
@@ -707,7 +711,7 @@ def guard_strings(rng, n):
                     body.append(")"); opened = max(0, opened - 1)
                 elif r < 0.86:
                     q = rng.choice(["'", '"', "`"])
-                    body.append(q + "".join(rng.choice(["(", ")", "-", "a", q + q, "\n"]) for _ in range(rng.randint(0, 5))) + q)
+                    body.append(q + "".join(rng.choice(["(", ")", "-", "a", q + q, "\n", "\\"]) for _ in range(rng.randint(0, 5))) + q)
                 elif r < 0.92:
                     body.append("--" + "".join(rng.choice(["(", ")", "'", "a", "-"]) for _ in range(rng.randint(0, 5))) + "\n")
                 else:
